@@ -2,6 +2,8 @@ package main
 
 import (
 	"fmt"
+	"sort"
+	"strings"
 
 	"github.com/unixpickle/model3d/model2d"
 	"github.com/unixpickle/model3d/model3d"
@@ -115,6 +117,25 @@ func init() {
 				dc := &model3d.DualContouring{S: model3d.SolidSurfaceEstimator{Solid: sparse3(nd, [3]int{0, 0, 0}, [3]int{0, 0, 1})}, Delta: 1, MaxGos: maxGos, BufferSize: buf, Clip: true}
 				return meshq.FaceMultiset3(dc.Mesh().TriangleSlice(), false)
 			}
+		}
+		// the interior-reporting entry point has its own reduction (per-worker lists joined under a lock)
+		runDI := func(maxGos, buf int) func() string {
+			return func() string {
+				dc := &model3d.DualContouring{S: model3d.SolidSurfaceEstimator{Solid: sparse3(nd, [3]int{0, 0, 0}, [3]int{0, 0, 1})}, Delta: 1, MaxGos: maxGos, BufferSize: buf, Clip: true}
+				m, interior := dc.MeshInterior()
+				pts := make([]string, len(interior))
+				for i, p := range interior {
+					pts[i] = fmt.Sprint(p)
+				}
+				sort.Strings(pts)
+				return meshq.FaceMultiset3(m.TriangleSlice(), false) + "\ninterior: " + strings.Join(pts, " ")
+			}
+		}
+		for _, buf := range []int{0, 1} {
+			buf := buf
+			register(scenario{name: fmt.Sprintf("dc-interior/maxgos%d/buffer%d", procs, buf), procs: procs, prop: "C13",
+				about: "DualContouring.MeshInterior: per-worker interior lists reduced into the caller's list",
+				body:  runDI(procs, buf), want: func() string { return withProcs(1, runDI(1, 0)) }})
 		}
 		register(scenario{name: fmt.Sprintf("dc/maxgos%d/shifting-buffer", procs), procs: procs, prop: "C12",
 			about: "DualContouring populateCorners/Edges/Cubes/appendMesh with MaxGos workers and a 4-row sliding buffer",
